@@ -158,6 +158,25 @@ pub fn last_lines(s: &str, n: usize) -> String {
     all[all.len().saturating_sub(n)..].join(" | ")
 }
 
+/// A stable, process-independent label for how a worker died (no thread ids or addresses).
+pub fn crash_kind(tail: &str) -> &'static str {
+    if tail.contains("arena capacity exceeded") {
+        "arena capacity exceeded"
+    } else if tail.contains("memory allocation of") {
+        "memory allocation failed"
+    } else if tail.contains("entered unreachable code") {
+        "internal unreachable!() reached"
+    } else if tail.contains("unsafe precondition") {
+        "unsafe precondition violated"
+    } else if tail.contains("panicked at") {
+        "panic"
+    } else if tail.contains("stack overflow") {
+        "native stack overflow"
+    } else {
+        "killed by a signal"
+    }
+}
+
 pub struct Ctx {
     pub seed: u64,
     pub tier: Tier,
